@@ -1,9 +1,156 @@
-/- driver handler of the `store` stream (line protocol, see Main.lean) -/
+/- driver handler of the `store` stream (line protocol, see Main.lean):
+   `store <TAB> run <TAB> <case JSON>` → `ok <TAB> [out, …, final dump]` -/
 import AslModel.Drv.Util
+import AslModel.Store
 namespace Asl.Drv.Store
-open Asl
+open Asl Asl.Drv Asl.Store
+
+def nat? : Json → Option Nat
+  | .num n => if n ≥ 0 then some n.toNat else none
+  | _ => none
+
+def bool? : Json → Option Bool
+  | .bool b => some b
+  | _ => none
+
+/-- `drain` is a harness step: deliver until the client's queue is empty -/
+def isDrain : Json → Option Nat
+  | .arr [c, .str name] => if String.ofList name = "drain" then nat? c else none
+  | _ => none
+
+def decOp : Json → Option (Nat × Op)
+  | .arr (c :: .str name :: args) =>
+    match nat? c with
+    | none => none
+    | some c =>
+      match String.ofList name, args with
+      | "set", [.str k, v] => some (c, .set k v)
+      | "upd", [.str k, .str f, v] => some (c, .upd k f v)
+      | "app", [.str k, v] => some (c, .app k v)
+      | "get", [.str k] => some (c, .get k)
+      | "cget", [.str k] => some (c, .cget k)
+      | "del", [.str k] => some (c, .del k)
+      | "has", [.str k] => some (c, .has k)
+      | "iter", [] => some (c, .iter)
+      | "len", [] => some (c, .len)
+      | "ttl", [.str k, n] => (nat? n).map (fun n => (c, .ttl k n))
+      | "gttl", [.str k] => some (c, .gttl k)
+      | "reopen", [] => some (c, .reopen)
+      | "deliver", [] => some (c, .deliver)
+      | _, _ => none
+  | _ => none
+
+def decOps : List Json → Option (List (Nat × Op ⊕ Nat))
+  | [] => some []
+  | j :: js =>
+    match isDrain j with
+    | some c => (decOps js).map (fun os => .inr c :: os)
+    | none => match decOp j, decOps js with
+      | some o, some os => some (.inl o :: os)
+      | _, _ => none
+
+def plainOps : List (Nat × Op ⊕ Nat) → List (Nat × Op)
+  | [] => []
+  | .inl o :: r => o :: plainOps r
+  | .inr c :: r => (c, .deliver) :: plainOps r
+
+/-- Redis schedule with `drain` expanded into as many `deliver` steps as the queue is long -/
+def runR (q : Quirks) (cfgs : Nat → Cfg) (w : RWorld) : List (Nat × Op ⊕ Nat) → RWorld × List Out
+  | [] => (w, [])
+  | .inl (c, op) :: rest =>
+    let r := rstep q cfgs w c op
+    let r2 := runR q cfgs r.1 rest
+    (r2.1, r.2 :: r2.2)
+  | .inr c :: rest =>
+    let n := (w.cl c).pending.length
+    let r := rrun q cfgs w (List.replicate n (c, .deliver))
+    let r2 := runR q cfgs r.1 rest
+    (r2.1, .done :: r2.2)
+
+def decCfg (j : Json) : Option Cfg :=
+  match j.get "pre", (j.get "isList").bind bool?, (j.get "cap").bind nat?, (j.get "legacy").bind bool? with
+  | some (.str p), some l, some cap, some lg => some { pre := p, isList := l, cap := cap, legacy := lg }
+  | _, _, _, _ => none
+
+def decCfgs : List Json → Option (List Cfg)
+  | [] => some []
+  | j :: js => match decCfg j, decCfgs js with
+    | some o, some os => some (o :: os)
+    | _, _ => none
+
+def decFile (j : Json) : Option FileC :=
+  match j.get "t" with
+  | some (.str t) =>
+    match String.ofList t, j.get "j" with
+    | "missing", _ => some .missing
+    | "garbage", _ => some .garbage
+    | "doc", some d => some (.doc d)
+    | _, _ => none
+  | _ => none
+
+def encOut : Out → Json
+  | .done => .null
+  | .val j => .obj [("v".toList, j)]
+  | .dflt => .obj [("dflt".toList, .bool true)]
+  | .keyError => .obj [("err".toList, .str "KeyError".toList)]
+  | .typeError => .obj [("err".toList, .str "TypeError".toList)]
+  | .flag b => .bool b
+  | .keys ks => .obj [("keys".toList, .arr (ks.map .str))]
+  | .count n => .num n
+  | .ttlv none => .num (-2)
+  | .ttlv (some none) => .num (-1)
+  | .ttlv (some (some n)) => .num n
+
+def encFile : FileC → Json
+  | .missing => .obj [("t".toList, .str "missing".toList)]
+  | .garbage => .obj [("t".toList, .str "garbage".toList)]
+  | .doc j => .obj [("t".toList, .str "doc".toList), ("j".toList, j)]
+
+def decTtl : List (Str × Json) → Option (List (Str × Nat))
+  | [] => some []
+  | (k, v) :: r => match nat? v, decTtl r with
+    | some n, some r' => some ((k, n) :: r')
+    | _, _ => none
+
+def runCase (j : Json) : Option Json :=
+  let q : Quirks := {
+    emptyAbsent := (((j.get "q").bind (·.get "emptyAbsent")).bind bool?).getD false,
+    nestedMemOnly := (((j.get "q").bind (·.get "nestedMemOnly")).bind bool?).getD false }
+  match j.get "kind", j.get "ops" with
+  | some (.str kind), some (.arr ops) =>
+    match decOps ops with
+    | none => none
+    | some ops =>
+      match String.ofList kind with
+      | "mem" =>
+        let r := mrun [] ((plainOps ops).map (·.2))
+        some (.arr (r.2.map encOut ++ [.obj [("mem".toList, .obj r.1)]]))
+      | "json" =>
+        match (j.get "file").bind decFile with
+        | none => none
+        | some f =>
+          let r := jrun q (jopen f) (plainOps ops)
+          some (.arr (r.2.map encOut ++ [.obj [("file".toList, encFile r.1.file)]]))
+      | "redis" =>
+        match j.get "cfgs", j.get "srv", j.get "ttl" with
+        | some (.arr cs), some (.obj srv), some (.obj ttl) =>
+          match decCfgs cs, decTtl ttl with
+          | some cfgs, some ttl =>
+            let r := runR q (fun c => cfgs.getD c default) (ropen srv ttl) ops
+            some (.arr (r.2.map encOut ++
+              [.obj [("srv".toList, .obj r.1.srv), ("ttl".toList, .obj (r.1.ttl.map (fun e => (e.1, .num e.2))))]]))
+          | _, _ => none
+        | _, _, _ => none
+      | _ => none
+  | _, _ => none
 
 def handle : List String → String
+  | ["run", c] =>
+    match rd c with
+    | some j => match runCase j with
+      | some r => "ok\t" ++ js r
+      | none => "unsupported"
+    | none => "unsupported"
   | _ => "bad-op"
 
 end Asl.Drv.Store
